@@ -51,7 +51,7 @@ def tlc_authz(mode, env, name, timeout=900):
     cfg = os.path.join(vlib.SPEC, "Authz_%s.cfg" % mode)
     with open(cfg, "w") as f:
         f.write("SPECIFICATION Spec\nCONSTANTS Mode = \"%s\"\nINVARIANTS %s\nCHECK_DEADLOCK FALSE\n" %
-                (mode, {"gen17": "Gen17", "chk17": "Chk17", "gen16": "Gen16", "chk16": "Chk16", "gen18": "Gen18", "chk18": "Chk18"}[mode]))
+                (mode, {"gen17": "Gen17", "chk17": "Chk17", "gen16": "Gen16", "chk16": "Chk16", "geng": "GenG", "chkg": "ChkG", "gen18": "Gen18", "chk18": "Chk18"}[mode]))
     meta = os.path.join(vlib.TLCDIR, name)
     e = dict(os.environ, JAVA_TOOL_OPTIONS="-Xss1g")
     e.update(env)
